@@ -18,7 +18,12 @@ def timeline(lines, trace):
     H = {}
     for l in lines:
         t = l.split()
-        if t[0] == "M":
+        if t[0] == "M" and t[1] == "repeat":
+            ops = " ".join(t[3:]).split(" ; ")
+            for _ in range(int(t[2])):
+                for o in ops:
+                    main.append(o.split())
+        elif t[0] == "M":
             main.append(t[1:])
         elif t[0] == "H":
             H.setdefault(int(t[1]), []).append(t[2:])
